@@ -361,7 +361,8 @@ func TestC01Histories(t *testing.T) {
 		byActive := map[string]string{} // active set -> answers (differential oracle)
 		var seqs, steps int64
 		wanted := replayWanted()
-		complete := SeqsShard(len(ops), depth, sh, deadline, func(seq []int) {
+		hourly := false
+		body := func(seq []int) {
 			if wanted != nil {
 				nm := make([]string, len(seq))
 				for i, o := range seq {
@@ -385,6 +386,9 @@ func TestC01Histories(t *testing.T) {
 			}
 			seqs++
 			dResetClock()
+			if hourly {
+				dStep, dShift = 61*60*1_000_000_000, 200*3600*1_000_000_000
+			}
 			n := newDNode("A", 1, 0)
 			active := map[string]int32{} // s|f -> qos
 			var names []string
@@ -468,6 +472,14 @@ func TestC01Histories(t *testing.T) {
 					byActive[ak] = answers.String()
 				}
 			}
+		}
+		complete := SeqsShard(len(ops), depth, sh, deadline, func(seq []int) {
+			// every history twice: under the usual clock (10 ns per reading) and with more than an hour between any two
+			// operations (whatever a node does with old entries must not change who receives what)
+			hourly = false
+			body(seq)
+			hourly = true
+			body(seq)
 		})
 		if !complete {
 			rep.Cap("deadline")
